@@ -20,7 +20,7 @@ pub fn def() -> PropDef {
     PropDef {
         id: "C13",
         level: "model_checking",
-        rule: "(a) every sequence of length <= d over {remote insert of an entry of a two-author universe, remove-and-recreate the document, ask for the heads and a news verdict}; after the last step get_latest_for_each_author and has_news_for_us(h) for every peer report h in {absent,0,T1,T2,T3}^2 are compared with the heads of the reference replica; (b) AuthorHeads::encode/decode for every set of <= 4 authors with timestamps from {0,1,2,127,128,16383,16384} (equal timestamps included) under every size limit from 1 to unlimited length + 1 and without limit, plus one set of 200 heads (the length prefix of the encoding grows to two bytes at 128) under every limit in the window that keeps 120..136 heads; (c) the head set as a data structure: every sequence of <= 4 inserts over 3 authors x timestamps {0,1,2,u64::MAX}: get/len/iter equal the per-author maximum, and for every split of the sequence into two sets merge is the pointwise maximum, has_news_for counts exactly the strictly newer or unknown authors, encode/decode returns the set; (d) a neighbour's sync report delivered to an idle real LiveActor (on_actor_message -> on_sync_report) for 3 document states x {absent,0,T1,T2,T3}^2 reports x {synced, unsynced document} leads to a dial exactly when it is news, also when the neighbour repeats it after the dial it caused was lost; non-trivial (a) = the sequence holds two entries of one author with different timestamps or a removal after an insert, (b) = at least two authors",
+        rule: "(a) every sequence of length <= d over {remote insert of an entry of a two-author universe, remove-and-recreate the document, ask for the heads and a news verdict}; after the last step get_latest_for_each_author and has_news_for_us(h) for every peer report h in {absent,0,T1,T2,T3}^2 x {no third author, an author never seen whose id sorts before / between / after the two x timestamp 0,T1,T3} are compared with the heads of the reference replica; (b) AuthorHeads::encode/decode for every set of <= 4 authors with timestamps from {0,1,2,127,128,16383,16384} (equal timestamps included) under every size limit from 1 to unlimited length + 1 and without limit, plus one set of 200 heads (the length prefix of the encoding grows to two bytes at 128) under every limit in the window that keeps 120..136 heads; (c) the head set as a data structure: every sequence of <= 4 inserts over 3 authors x timestamps {0,1,2,u64::MAX}: get/len/iter equal the per-author maximum, and for every split of the sequence into two sets merge is the pointwise maximum, has_news_for counts exactly the strictly newer or unknown authors, encode/decode returns the set; (d) a neighbour's sync report delivered to an idle real LiveActor (on_actor_message -> on_sync_report) for 3 document states x {absent,0,T1,T2,T3}^2 reports x {synced, unsynced document} leads to a dial exactly when it is news, also when the neighbour repeats it after the dial it caused was lost; non-trivial (a) = the sequence holds two entries of one author with different timestamps or a removal after an insert, (b) = at least two authors",
         assumptions: &[
             "size limit 0 is excluded: no postcard sequence fits into zero bytes",
             "where several keys attain an author's maximal timestamp any of them is accepted as the head's key",
@@ -159,42 +159,68 @@ fn run_history(ops: &[Op]) -> (Vec<(&'static str, Value, String)>, String) {
     // report values: 0 = author absent from the report, 1..=3 = T0+1..T0+3, 4 = timestamp 0
     // (the smallest legal timestamp: an unknown author is news whatever its timestamp)
     let ts_of = |h: u64| if h == 4 { 0 } else { T0 + h };
+    // a third author of the report that the replica has never heard of: its id sorts before,
+    // between or after the two authors of the universe; timestamp 0, T1 or T3
+    let (lo, hi) = {
+        let (a, b) = (author_id(0).to_bytes(), author_id(1).to_bytes());
+        if a < b { (a, b) } else { (b, a) }
+    };
+    let mut mid = lo;
+    mid[31] = mid[31].wrapping_add(1);
+    if mid[31] == 0 {
+        mid[30] = mid[30].wrapping_add(1);
+    }
+    let strangers: Vec<Option<([u8; 32], u64)>> = std::iter::once(None)
+        .chain([[0u8; 32], mid, [0xffu8; 32]].into_iter().flat_map(|id| [0u64, T0 + 1, T0 + 3].into_iter().map(move |t| Some((id, t)))))
+        .collect();
+    debug_assert!(lo < mid && mid < hi);
     for h0 in 0..5u64 {
         for h1 in 0..5u64 {
-            let mut heads = AuthorHeads::default();
-            if h0 > 0 {
-                heads.insert(author_id(0), ts_of(h0));
-            }
-            if h1 > 0 {
-                heads.insert(author_id(1), ts_of(h1));
-            }
-            let got = sut
-                .store
-                .has_news_for_us(ns, &heads)
-                .expect("has_news_for_us")
-                .map(|n| n.get())
-                .unwrap_or(0);
-            let mut want_n = 0;
-            for (a, h) in [(0u8, h0), (1u8, h1)] {
-                if h == 0 {
-                    continue;
+            for stranger in &strangers {
+                let mut heads = AuthorHeads::default();
+                if h0 > 0 {
+                    heads.insert(author_id(0), ts_of(h0));
                 }
-                match want.get(&author_id(a).to_bytes()) {
-                    None => want_n += 1,
-                    Some(ours) if ts_of(h) > *ours => want_n += 1,
-                    _ => {}
+                if h1 > 0 {
+                    heads.insert(author_id(1), ts_of(h1));
                 }
-            }
-            news_digest.push(got);
-            if got != want_n {
-                bad.push((
-                    "news_iff_strictly_newer_or_unknown",
-                    json!({"spurious": got > want_n, "after_recreate": removed_before}),
-                    format!(
-                        "has_news_for_us(A0@{h0},A1@{h1}) impl={got} model={want_n}; our heads model=[{}]",
-                        show(&want)
-                    ),
-                ));
+                if let Some((id, t)) = stranger {
+                    heads.insert(AuthorId::from(id), *t);
+                }
+                let got = sut
+                    .store
+                    .has_news_for_us(ns, &heads)
+                    .expect("has_news_for_us")
+                    .map(|n| n.get())
+                    .unwrap_or(0);
+                let mut want_n = if stranger.is_some() { 1 } else { 0 };
+                for (a, h) in [(0u8, h0), (1u8, h1)] {
+                    if h == 0 {
+                        continue;
+                    }
+                    match want.get(&author_id(a).to_bytes()) {
+                        None => want_n += 1,
+                        Some(ours) if ts_of(h) > *ours => want_n += 1,
+                        _ => {}
+                    }
+                }
+                if stranger.is_none() {
+                    news_digest.push(got);
+                }
+                if got != want_n {
+                    bad.push((
+                        "news_iff_strictly_newer_or_unknown",
+                        json!({"spurious": got > want_n, "after_recreate": removed_before, "stranger": stranger.is_some()}),
+                        format!(
+                            "has_news_for_us(A0@{h0},A1@{h1}{}) impl={got} model={want_n}; our heads model=[{}]",
+                            match stranger {
+                                Some((id, t)) => format!(", an author never seen ({:02x}..{:02x})@{}", id[0], id[31], if *t >= T0 { format!("T{}", t - T0) } else { t.to_string() }),
+                                None => String::new(),
+                            },
+                            show(&want)
+                        ),
+                    ));
+                }
             }
         }
     }
